@@ -256,12 +256,12 @@ func init() {
 	register(&CheckSpec{ID: "C10", Patterns: []string{pkgServer},
 		Jobs: func(tier string) []*JobCfg {
 			if tier == "thorough" {
-				return []*JobCfg{pipe(10, 3, 10, kG|kS|kM), world(10, 2, 1, 8, kG|kS, 0), worldO(10, 2, 0, 9, kM|kS|kG, 0), world(10, 3, 0, 9, kG|kS, fWide), world(10, 2, 0, 8, kG|kS, fSplit), world(10, 3, 0, 8, kG|kS|kM, fBatch)}
+				return []*JobCfg{pipe(10, 3, 10, kG|kS|kM), world(10, 2, 1, 8, kG|kS, 0), worldO(10, 2, 0, 9, kM|kS|kG, 0), world(10, 3, 0, 9, kG|kS, fWide), world(10, 2, 0, 8, kG|kS, fSplit), world(10, 3, 0, 8, kG|kS|kM, fBatch), noMapOrder(job(pkgServer, "HarnessC10Slow", 16, 4)), noMapOrder(job(pkgServer, "HarnessC10Slow", 8, 3)), noMapOrder(job(pkgServer, "HarnessC10Slow", 64, 4))}
 			}
-			return []*JobCfg{pipe(10, 2, 8, kG|kS|kM), pipe(10, 3, 8, kG|kS), world(10, 1, 1, 7, kG|kS, 0), worldO(10, 2, 0, 7, kM|kS, 0), world(10, 3, 0, 6, kG|kS|kM, fBatch)}
+			return []*JobCfg{pipe(10, 2, 8, kG|kS|kM), pipe(10, 3, 8, kG|kS), world(10, 1, 1, 7, kG|kS, 0), worldO(10, 2, 0, 7, kM|kS, 0), world(10, 3, 0, 6, kG|kS|kM, fBatch), noMapOrder(job(pkgServer, "HarnessC10Slow", 16, 3))}
 		},
 		Bounds: func(tier string) string {
-			return "1..2 clients, 2..3 forwarded requests (GET/SET/MGET) with solver-chosen owners, every schedule up to 7/8 events; per backend connection the order of each client's requests is compared with that client's send order"
+			return "1..2 clients, 2..3 forwarded requests (GET/SET/MGET) with solver-chosen owners, every schedule up to 7/8 events; per backend connection the order of each client's requests is compared with that client's send order; a slow node: 3 (thorough 4) requests written while the backend socket accepts nothing / 3 bytes / everything per write and writable events drain nothing / 5 / 20 bytes in between, static outbound buffer of 16 (thorough also 8, 64) bytes: the node receives the requests byte-exact in client order"
 		},
 		Assumptions: []string{worldAssume, "one connection per backend node, no redirects"}, Stubs: []string{stubWorld},
 		Outside: []string{"redirected requests (a MOVED/ASK re-send legitimately reorders), more than one connection per node"}})
@@ -380,13 +380,22 @@ func init() {
 				js = append(js, sites(withSumHash(job(pkgCore, "HarnessC08", p[0], p[1], -1, 0)), "CRespCodec).MGet"))
 			}
 			js = append(js, sites(job(pkgCore, "HarnessC08", 0, 2, -1, 0), "CRespCodec).MGet"))
+			// the proxy has a past: an earlier client (same descriptor number / still connected) or a backend
+			// reply was cut inside a bulk argument
+			hist := [][3]int64{{0, 1, 1}, {1, 0, 2}, {0, 1, 3}}
+			if tier == "thorough" {
+				hist = append(hist, [3]int64{4, 2, 1}, [3]int64{2, 5, 2}, [3]int64{1, 0, 3}, [3]int64{1, 0, 1}, [3]int64{0, 1, 2})
+			}
+			for _, h := range hist {
+				js = append(js, sites(withSumHash(job(pkgCore, "HarnessC08Hist", h[0], h[1], -1, 0, h[2])), "CRespCodec).MGet"))
+			}
 			if tier == "thorough" {
 				js = append(js, sites(withSumHash(job(pkgCore, "HarnessC08", 0, 1, -1, -1)), "CRespCodec).MGet"), sites(withSumHash(job(pkgCore, "HarnessC08", 4, 2, -1, -1)), "CRespCodec).MGet"))
 			}
 			return js
 		},
 		Bounds: func(tier string) string {
-			return "streams of two pipelined requests of 8 shapes (GET/SET/MGET/DEL/PING/arbitrary 3-byte command name, arbitrary binary key and value bytes incl. CR/LF, empty arguments), EVERY two-way cut position (thorough: every three-way cut for two shape pairs); differential against the same real code on the uncut stream"
+			return "streams of two pipelined requests of 8 shapes (GET/SET/MGET/DEL/PING/arbitrary 3-byte command name, arbitrary binary key and value bytes incl. CR/LF, empty arguments), EVERY two-way cut position (thorough: every three-way cut for two shape pairs); differential against the same real code on the uncut stream; the same with a past: an earlier client that sent a request cut inside a bulk argument and disconnected (descriptor number reused) or is still connected, or a backend reply cut inside a bulk value"
 		},
 		Assumptions: []string{"well-formed streams are generated constructively (canonical lengths); in jobs marked H=spec hashkit.Hash is replaced by its specification (C05)"}, Stubs: []string{stubWorld},
 		Outside: []string{"requests larger than the 1 KiB inbound ring (growth is C19), more than two requests per stream"}})
